@@ -122,11 +122,13 @@ def sym_round(x, n=None):
 class TwinSpace(object):
     """one namespace of twin modules (per harness/obligation)"""
 
-    def __init__(self, stubs=None, patch_int=True, no_twin=()):
+    def __init__(self, stubs=None, patch_int=True, no_twin=(),
+                 objfloat=False):
         from . import shim
         self.modules = {}
         self.stubs = dict(stubs or {})
         self.np = shim.make_numpy_shim()
+        self.np.__dict__['_objfloat'] = objfloat
         self.stubs.setdefault('numpy', self.np)
         self.stubs.setdefault('numpy.ma', self.np.ma)
         self.stubs.setdefault('scipy.interpolate',
